@@ -47,7 +47,7 @@ def run_check(pid: str, tier: str, seed: int, only_defs=None, replay_mode=False)
     notes = []
 
     # ---- 1. proofs
-    if os.environ.get("VERIF_DEV_SKIP_COQ"):      # development aid only: the evidence then shows 0 obligations
+    if os.environ.get("VERIF_DEV_SKIP_COQ", "0") not in ("", "0"):      # development aid only: the evidence then shows 0 obligations
         coq = {"ok": True, "problems": [], "obligations": 0, "discharged": 0, "assumptions": {}, "dep_files": []}
     else:
         coq = R.coq_build(mod.PROP_FILE, mod.THEOREMS)
